@@ -2523,11 +2523,25 @@ func runC03(c *Ctx) {
 			r.Unresolved("cmp/lexical", key, "function not found")
 			continue
 		}
+		// the validator: a literal returned here, or by a shared constructor of the package that declares
+		// the literal's state and returns it (`return newValidator(false)`); constant flag arguments of
+		// that constructor fix the corresponding branches inside the literal
 		var lit *ast.FuncLit
+		flags := map[types.Object]bool{}
 		ast.Inspect(fd.Body, func(n ast.Node) bool {
 			if rs, ok := n.(*ast.ReturnStmt); ok && len(rs.Results) == 1 {
-				if l, ok := ast.Unparen(rs.Results[0]).(*ast.FuncLit); ok {
-					lit = l
+				switch x := ast.Unparen(rs.Results[0]).(type) {
+				case *ast.FuncLit:
+					lit = x
+				case *ast.CallExpr:
+					if l, bind := statefulClosureFactory(p, infoS, x); l != nil {
+						lit = l
+						for po, a := range bind {
+							if tv, ok := infoS.Types[a]; ok && tv.Value != nil && tv.Value.Kind() == constant.Bool {
+								flags[po] = constant.BoolVal(tv.Value)
+							}
+						}
+					}
 				}
 			}
 			return true
@@ -2537,6 +2551,13 @@ func runC03(c *Ctx) {
 			continue
 		}
 		lf := newFuncCFG(p, infoS, lit.Body, key)
+		feasible := func(pt Point) bool {
+			if len(flags) == 0 {
+				return true
+			}
+			_, ok := lf.reach(lf.entry(), &searchOpts{InitFacts: flags}, func(q Point, atExit bool) bool { return !atExit && lf.At(q, pt) })
+			return ok
+		}
 		lf.CallsOpaque = true
 		isC := func(k string) bool {
 			return strings.HasPrefix(k, "bytes.Compare(") && strings.HasSuffix(k, ")") && strings.Count(k, ",") == 1
@@ -2563,7 +2584,7 @@ func runC03(c *Ctx) {
 		}
 		for _, pt := range lf.Find(func(n ast.Node) bool { _, ok := n.(*ast.ReturnStmt); return ok }) {
 			rs := lf.nodeAt(pt).(*ast.ReturnStmt)
-			if len(rs.Results) != 1 {
+			if len(rs.Results) != 1 || !feasible(pt) {
 				continue
 			}
 			k := exprKey(rs.Results[0])
@@ -2581,13 +2602,15 @@ func runC03(c *Ctx) {
 			}
 		}
 		for _, e := range gt {
-			if _, found := lf.reach(Point{e.From.Succs[e.Succ], 0}, nil, isNilRet); found {
+			e := e
+			if _, found := lf.reach(Point{e.From.Succs[e.Succ], 0}, &searchOpts{FromEdge: &e, InitFacts: flags}, isNilRet); found {
 				problems = append(problems, "an out-of-order element (Compare > 0) can be accepted")
 			}
 		}
 		if row.dups {
 			for _, e := range eq {
-				if _, found := lf.reach(Point{e.From.Succs[e.Succ], 0}, nil, isNilRet); found {
+				e := e
+				if _, found := lf.reach(Point{e.From.Succs[e.Succ], 0}, &searchOpts{FromEdge: &e, InitFacts: flags}, isNilRet); found {
 					problems = append(problems, "a duplicate element (Compare == 0) can be accepted")
 				}
 			}
